@@ -135,8 +135,9 @@ def _knob(k, d):
 
 
 def _still_has_encrypted_packet(blob):
+    """is the input still (part of) an encrypted message - an encrypted data packet or a session-key packet at the top level?"""
     try:
-        return any(p.tag in (9, 18) for p in wire.split(bytes(blob)))
+        return any(p.tag in (9, 18, 1, 3) for p in wire.split(bytes(blob)))
     except Exception:
         return False
 
